@@ -95,12 +95,24 @@ def main():
             if os.path.exists(os.path.join(src, f)):
                 shutil.copy(os.path.join(src, f), dst)
         print("kept in", dst)
+    elif a[0] == "neutral":
+        # behaviour-preserving refactorings written by independent sub-agents: every check must stay silent
+        base = os.path.join(ROOT, "seeded", "neutral")
+        allp = props or ["C%02d" % i for i in range(1, 21)]
+        bad = 0
+        for sid in sorted(os.listdir(base)):
+            d = os.path.join(base, sid)
+            r = evaluate(d, allp, tier, quiet=True)
+            alarms = {p: (c["rc"], c["mechanisms"][:2]) for p, c in r["checks"].items() if c["rc"] != 0}
+            print("%-14s tests[%s] alarms: %s" % (sid, r["tests"], alarms or "none"), flush=True)
+            bad += 1 if alarms else 0
+        return 1 if bad else 0
     elif a[0] == "all":
         base = os.path.join(ROOT, "seeded")
         bad = 0
         for sid in sorted(os.listdir(base)):
             d = os.path.join(base, sid)
-            if not os.path.exists(os.path.join(d, "patch.diff")):
+            if sid == "neutral" or not os.path.exists(os.path.join(d, "patch.diff")):
                 continue
             r = evaluate(d, props, tier, quiet=True)
             caught = [p for p, c in r["checks"].items() if c["rc"] == 1]
